@@ -97,6 +97,12 @@ def run_stage(ctx, name, terms, builder, shard=4, workers=14):
             broken = True
             continue
         n += cnt
+        sv = E.parse_M(out, "S")
+        if sv is not None:
+            try:
+                ctx.stage_counts[name] = ctx.stage_counts.get(name, 0) + int(sv.rstrip("%nat").strip())
+            except (ValueError, AttributeError):
+                pass
         if m != "[]":
             idx = sorted({int(x) for x in re.findall(r"\((\d+)%nat, \(", m)} or {0})
             for k in idx:
@@ -194,6 +200,21 @@ def stageD_case(out, rng, nsample=12):
         sample.append("(%d, %d)%%nat" % (rng.randrange(max(n, 1)), rng.randrange(max(n, 1))))
     return ("{| sy_bars := %s;\n   sy_nodes := [%s];\n   sy_n := %d;\n   sy_K := [%s];\n   sy_F := [%s];\n   sy_sample := [%s] |}"
             % (E.coq_list(bars), "; ".join(nodes), n, "; ".join(K), "; ".join(F), "; ".join(sample)))
+
+
+def stageH_v(terms):
+    """the computed hypotheses of the structure-level theorems on the implementation's sliced structures"""
+    lines = [E.HEADER, "From Inkfem Require Import Model.Dof Model.Assemble."]
+    for k, t in enumerate(terms):
+        lines.append("Definition case_%d : sys_case :=\n  %s." % (k, t))
+    lines.append("Definition all_cases := [%s]." % "; ".join("case_%d" % k for k in range(len(terms))))
+    lines.append("Definition HS : list (bool * bool * bool) := Eval vm_compute in map hyp_system all_cases.")
+    lines.append("Definition alarms (h : bool * bool * bool) : list (nat * nat * nat) := (if fst (fst h) then [] else [(1, 0, 0)%nat]) ++ (if snd (fst h) then [] else [(2, 0, 0)%nat]).")
+    lines.append("Definition M := Eval vm_compute in\n  flat_map (fun p : nat * (bool * bool * bool) => map (fun m => (fst p, m)) (alarms (snd p))) (indexed HS).")
+    lines.append("Definition S := Eval vm_compute in length (filter (fun h : bool * bool * bool => fst (fst h) && snd (fst h) && snd h) HS).")
+    lines.append("Print M.")
+    lines.append("Print S.")
+    return "\n".join(lines) + "\n"
 
 
 def stageD_v(terms, tol="(1 # 10000000000)"):
